@@ -285,7 +285,7 @@ def drop_zeroizes(cr, im):
                 continue
             a0 = t["args"][0]
             if a0["k"] in ("copy", "move"):
-                src = G.ref_source(body, a0["place"]["local"])
+                src = G.ref_source(body, a0["place"]["local"], types=cr.types)
                 if src and src[0] == 1 and src[1]:
                     covered.add(src[1][0])
                     covered.add(".".join(str(x) for x in src[1]))
@@ -392,7 +392,40 @@ CONTROLS = [
     ("leak.zeroize-field", "HalfWiped.y"),
     ("leak.zeroize-field", "SometimesWiped.iv"),
     ("leak.zeroize-field", "NeverWiped.iv"),
+    ("leak.zeroize-field", "CopyWiped.s"),
 ]
+
+
+def fixtures_factbase():
+    """compile /verif/fixtures with the driver; returns (FactBase restricted to the fixtures crate,
+    cleanup function).  Raises FactsError."""
+    import os
+    import shutil
+    import tempfile
+    from . import facts as FX
+    tmp = tempfile.mkdtemp(prefix="bmsa-fixt-")
+    out = None
+    try:
+        src = os.path.join(FX.VERIF, "fixtures")
+        dst = os.path.join(tmp, "fixtures")
+        shutil.copytree(src, dst, ignore=shutil.ignore_patterns("target"))
+        shutil.copy(os.path.join(FX.REPO, "Cargo.lock"), os.path.join(dst, "Cargo.lock"))
+        out = FX.extract_crate_dir(dst, ["bmsa_fixtures", "cipher", "inout", "crypto_common", "hybrid_array"])
+        fb = FX.FactBase("fixtures", directory=out)
+        fx = fb.crates.get("bmsa_fixtures")
+        if fx is None:
+            raise FX.FactsError("driver produced no facts for the fixtures crate")
+        fb.workspace = lambda: [fx]
+    except Exception:
+        shutil.rmtree(tmp, ignore_errors=True)
+        if out:
+            shutil.rmtree(out, ignore_errors=True)
+        raise
+
+    def cleanup():
+        shutil.rmtree(tmp, ignore_errors=True)
+        shutil.rmtree(out, ignore_errors=True)
+    return fb, cleanup
 
 
 def run_controls(rep, which):
